@@ -64,10 +64,16 @@ pub fn yield_with_io<T: EventSource>(resource: &T, is_coroutine: bool) {
             )
         };
         let es = EventSubscriber::new(r);
+        let done = crate::io::thread::ASSOCIATED_IO_DONE.with(|d| d.clone());
+        done.store(false, std::sync::atomic::Ordering::Relaxed);
         crate::io::thread::PROXY_CO_SENDER.with(|tx| {
             tx.send(es).unwrap();
         });
-        std::thread::park();
+        // the proxy coroutine uses `resource` (on this thread's stack) until it says it is done: a `park` that returns for
+        // any other reason must not let this thread go on
+        while !done.load(std::sync::atomic::Ordering::Acquire) {
+            std::thread::park();
+        }
     }
 }
 
